@@ -5,6 +5,8 @@
 #![allow(clippy::mutable_key_type)]
 
 mod util;
+#[cfg(pilota_verif)]
+mod verif_gate;
 
 pub mod codegen;
 pub mod db;
